@@ -156,10 +156,11 @@ func init() {
 		sc.Name = "efund-supply-queries"
 		sc.Visit = supplyQueries
 		sc.VisitPure = true
-		// a third and fourth denomination so that pagination has something to page over
+		// further denominations so that pagination has something to page over: a voucher-style one with upper-case hex, and one that differs from the native denomination by case only
 		for i := range sc.Genesis.Accounts {
 			if sc.Genesis.Accounts[i].Name == "O" {
-				sc.Genesis.Accounts[i].Coins = sc.Genesis.Accounts[i].Coins.Add(sdk.NewInt64Coin("abc", 5), sdk.NewInt64Coin("zzz", 9))
+				sc.Genesis.Accounts[i].Coins = sc.Genesis.Accounts[i].Coins.Add(sdk.NewInt64Coin("abc", 5)).Add(sdk.NewInt64Coin("zzz", 9)).
+					Add(sdk.NewInt64Coin("ibc/27394FB092D2ECCD56123C74F36E4C1F926001CEADA9CA97EA622B25F41E5EB2", 333)).Add(sdk.NewInt64Coin("Nund", 3)) // case matters
 			}
 		}
 		return &Check{ID: "C17",
